@@ -16,6 +16,7 @@ type Runner struct {
 	addMode  int
 	ctorMode int
 	obsMode  int
+	peekCtr  int
 	// per-history switches set by `#frame` (observe before/after every refused call)
 	checkFrame bool
 	quiet      bool
